@@ -1330,6 +1330,9 @@ class Model:
         seeds = jax.random.split(seed, len(dists))
 
         for dist, seed in zip(dists, seeds):
+            # the inputs of the distribution must reflect the values drawn so far,
+            # also if the model's auto-update is switched off
+            self.update(dist.name)
             tfp_dist = dist.init_dist()
 
             event_shape = tfp_dist.event_shape
